@@ -531,6 +531,104 @@ func runC08(c *Ctx) {
 	c.rule("R-POS-WRITERS", 4, "lruStore.present has exactly the writers {update callback, Store} and deleters {Remove, Evict}, each deletion after the heap removal; the callback is installed")
 	rulePosWriters(c)
 
+	// ---- the LRU order lives in a heapq.Queue whose positions the store tracks through the move callback:
+	// the heap's own structural rules (C05, C06) are part of what this property stands on
+	c.rule("R-HEAP-SHARED", 4, "heapq's R-HEAP-BIDIR, R-POP-CONSERVES, R-MOVE-NOTIFY and R-ADD-RETURNS hold (shared with C05/C06)")
+	for _, sh := range []struct {
+		id  string
+		run func(*Ctx)
+	}{{"C05", runC05}, {"C06", runC06}} {
+		sub := newCtx(P, sh.id, c.Tier)
+		sh.run(sub)
+		for _, o := range sub.Obligs {
+			switch o.Rule {
+			case "R-HEAP-BIDIR", "R-POP-CONSERVES", "R-MOVE-NOTIFY", "R-ADD-RETURNS":
+			default:
+				continue
+			}
+			key := sh.id + ":" + o.Rule + "/" + o.Construct
+			if o.Verdict == "ok" {
+				c.ok("R-HEAP-SHARED", key, 0, "holds")
+			} else {
+				c.bad("R-HEAP-SHARED", key, 0, "the LRU store's heap breaks "+o.Rule+" at "+o.Pos+": "+o.Msg+" — recency order or the key→offset index goes wrong")
+			}
+		}
+	}
+	// ---- Remove's answer: true exactly where an entry left the store
+	if rm := P.Func("cache", "Cache", "Remove"); rm != nil {
+		for _, f := range buildCallScope(rm).fns {
+			if f != rm && !(f.Parent() != nil) && origin(f).Signature.Results().Len() != 1 {
+				continue
+			}
+			f := f
+			departs := map[*ssa.BasicBlock]bool{}
+			allInstrs(f, func(in ssa.Instruction) {
+				if n, _ := invokeName(in); n == "Remove" || n == "Evict" {
+					departs[in.Block()] = true
+				}
+			})
+			allInstrs(f, func(in ssa.Instruction) {
+				ret, ok := in.(*ssa.Return)
+				if !ok || len(ret.Results) != 1 {
+					return
+				}
+				var chk func(v ssa.Value, at *ssa.BasicBlock, seen map[ssa.Value]bool)
+				chk = func(v ssa.Value, at *ssa.BasicBlock, seen map[ssa.Value]bool) {
+					if seen[v] {
+						return
+					}
+					seen[v] = true
+					switch x := v.(type) {
+					case *ssa.Phi:
+						for i, e := range x.Edges {
+							chk(e, x.Block().Preds[i], seen)
+						}
+					case *ssa.UnOp:
+						// a result spilled to a cell because of the deferred Unlock: judge what is stored there
+						if al, ok := x.X.(*ssa.Alloc); ok && x.Op == token.MUL {
+							for _, r := range referrersOf(al) {
+								if st, ok := r.(*ssa.Store); ok && st.Addr == ssa.Value(al) && (st.Block() == x.Block() || st.Block().Dominates(x.Block())) {
+									// the store nearest to this read on the dominator chain
+									nearest := true
+									for _, r2 := range referrersOf(al) {
+										if st2, ok := r2.(*ssa.Store); ok && st2 != st && st2.Addr == ssa.Value(al) && (st2.Block() == x.Block() || st2.Block().Dominates(x.Block())) && dominatesInstr(st, st2) {
+											nearest = false
+										}
+									}
+									if nearest {
+										chk(st.Val, st.Block(), seen)
+									}
+								}
+							}
+						}
+					case *ssa.Const:
+						if x.Value == nil {
+							return
+						}
+						after := false
+						for b := range departs {
+							if b == at || b.Dominates(at) {
+								after = true
+							}
+						}
+						isTrue := x.Value.String() == "true"
+						key := fmt.Sprintf("%s:answers %v", fnName(f), isTrue)
+						switch {
+						case isTrue && !after:
+							c.bad("R-EVICT-PAIR", key, ret.Pos(), "Remove can answer true on a path where nothing left the store: the caller is told an entry was removed that was never there")
+						case !isTrue && after:
+							c.bad("R-EVICT-PAIR", key, ret.Pos(), "Remove can answer false after taking an entry out of the store")
+						default:
+							c.ok("R-EVICT-PAIR", key, ret.Pos(), "the answer matches whether an entry left the store")
+						}
+					}
+				}
+				if b, ok := ret.Results[0].Type().Underlying().(*types.Basic); ok && b.Kind() == types.Bool && len(departs) > 0 {
+					chk(ret.Results[0], ret.Block(), map[ssa.Value]bool{})
+				}
+			})
+		}
+	}
 	// ---- R-SIZEFN-FAITHFUL: the size function the cache accounts with is the configured one
 	c.rule("R-SIZEFN-FAITHFUL", 1, "the size function installed in the cache is the configured function itself, a closure returning exactly its result, or (nothing configured) a constant")
 	{
